@@ -314,6 +314,13 @@ int mod_deregister(m_mod_t **mod, bool from_user) {
     
     M_DEBUG("Deregistering module '%s'.\n", m->name);
     
+    /*
+     * The module may be gone from its context already (ie: it is being deregistered, and
+     * this is a nested call made by its own on_stop() hook); its name may even have
+     * been taken by a new module meanwhile, that must be left alone.
+     */
+    M_RET_ASSERT(m_map_get(c->modules, m->name) == m, -ENOENT);
+
     int ret = 0;
     M_MEM_LOCK(m, {
         /* Remove the module from the context */
